@@ -17,7 +17,10 @@ res={}
 for m in re.finditer(r'<testcase name="([^"]+)"[^>]*?status="(\w+)"',x): res[m.group(1)]=m.group(2)
 fails=set(re.findall(r'<testcase name="([^"]+)"[^>]*>\s*<failure',x))
 base=json.load(open('/root/.vp/BASELINE.json'))['stable_pass']
-bad=[b for b in base if b.split('::')[0] not in res or b.split('::')[0] in fails]
+def nm(b):
+    a=b.split('::')
+    return a[0] if '.' in a[0] else a[0]+'.'+a[1]
+bad=[b for b in base if nm(b) not in res or nm(b) in fails]
 print("tests seen",len(res),"failed",len(fails),"stable_pass broken:",bad)
 PY
 bash -c "$DEMO" >/tmp/demo_patched.$$ 2>&1; p=$?
